@@ -14,6 +14,7 @@
 #include <fcntl.h>
 #include <sys/wait.h>
 #include <climits>
+#include <csignal>
 #include <set>
 #include <memory>
 #include <algorithm>
@@ -72,7 +73,8 @@ static const size_t STATIC_ARENA = 1u << 20;
 alignas(64) char _heap_start[STATIC_ARENA]; // the symbol lin_malloc.cpp links against
 
 // stubs for the critical-section / system-lock symbols of the bare-metal build
-extern "C" int critical_context_level(void) { return 0; }
+static int crit_level = 0;
+extern "C" int critical_context_level(void) { return crit_level; }
 static int lock_depth = 0, lock_max = 0;
 extern "C" void system_lock(void)
 {
@@ -840,6 +842,36 @@ static void run_op(const std::vector<std::string> &w, const std::string &, out &
             o.result = s(TC->e) + " " + s(TC->cap) + " | " + s(pool_avail(&TC->head)) + " | " + su(TC->ip.size()) + " " + su(TC->ip.room()) + " " + su(TC->ip.avail()) + " | " + s(TC->sop->avail());
             TC->check_all(o);
             o.tag("twins");
+            return;
+        }
+        if (k == "crit")
+        {
+            // malloc / free / realloc called from a critical context (interrupt handler): the port aborts instead of
+            // corrupting the heap under the interrupted call.  Run in a child process.
+            fflush(stdout);
+            pid_t pid = fork();
+            if (pid == 0)
+            {
+                int nul = open("/dev/null", O_RDWR);
+                dup2(nul, 0);
+                dup2(nul, 1);
+                dup2(nul, 2);
+                __malloc_heap_start = _heap_start;
+                __malloc_heap_end = nullptr;
+                __brkval = nullptr;
+                __flp = nullptr;
+                __allocation_counter = 0;
+                void *q = igv_malloc(8);
+                crit_level = 1;
+                if (w[2] == "m") q = igv_malloc(8);
+                else if (w[2] == "f") igv_free(q);
+                else q = igv_realloc(q, 100);
+                _exit(q ? 0 : 1);
+            }
+            int status = 0;
+            waitpid(pid, &status, 0);
+            o.result = WIFSIGNALED(status) && WTERMSIG(status) == SIGABRT ? "abort" : WIFSIGNALED(status) ? "signal " + s(WTERMSIG(status)) : "returned";
+            o.tag("critical-context");
             return;
         }
         if (k == "mpool")
@@ -2305,6 +2337,7 @@ static void gen(rng &r, const std::string &tier)
     puts("consts");
     puts("consts2");
     puts("early");
+    puts("reset crit m\nreset crit f\nreset crit r");
     // ---- pools: element sizes 8..64, capacities 1..33
     for (size_t cap = 1; cap <= 33; cap++)
         for (size_t k = 1; k <= 8; k++)
